@@ -29,10 +29,11 @@ package main
 // (a copy counts 100, a Write 1), copyfrom = file position when that copy started, fpos =
 // position of the last Seek, sumcount = number of digests taken so far.
 //@ func (d *ioDelegate) TryCache(h hash.Hash, data []byte) (ok bool, err error)
-//@   prop C14
+//@   prop C14 C13
 //@   requires !isnil(d) && !isnil(h) && !isnil(d.infile) && !isnil(d.outfile)
 //@   requires ghostint("fpos") == 0 && ghostint("sumcount") == 0 && ghostint("removed") == 0 && ghostint("fwcount") == 0 && isnil(d.cache)
 //@   callpre Sum(b): (ghostint("sumcount") == 0 && ghostint("hs") == 100 && ghostint("copyfrom") == 0) || (ghostint("sumcount") == 1 && ghostint("hs") == 1)
 //@   callpre Open(path, hh, rs, ds): ghostint("sumcount") == 2 && ghostint("fpos") == 0 && sameslice(ds, lastSum) && !sameslice(rs, lastSum)
 //@   callpre CreateLevel(path, hh, rs, ds, lv): ghostint("sumcount") == 2 && ghostint("fpos") == 0 && sameslice(ds, lastSum) && !sameslice(rs, lastSum)
 //@   ensures miss_rewound: !ok && isnil(err) ==> ghostint("fpos") == 0
+//@   ensures_each served_only_if_verified: ok ==> !isnil(f) && eqBytes(rsum, f.hd.RootSum) && eqBytes(dsum, f.hd.DataSum)
